@@ -374,6 +374,11 @@ func runFiles(op map[string]any) (any, error) {
 			}
 			continue
 		}
+		if r, ok := act["tryroot"].(string); ok {
+			// a caller that carries on after a refused SetRoot: the root set before must still confine every read
+			_ = p.SetRoot(r)
+			continue
+		}
 		path, _ := act["input"].(string)
 		if match {
 			real, _, err := bkl.FileMatch(path)
